@@ -18,6 +18,9 @@ HERE = os.path.dirname(os.path.abspath(__file__))
 VERIF = os.path.dirname(HERE)
 sys.path.insert(0, HERE)
 from mutants import MUTANTS  # noqa: E402
+if '--neutral' in sys.argv:
+    del MUTANTS[:]
+    import neutral  # noqa: E402,F401
 
 
 def copy_repo(dst):
@@ -58,6 +61,24 @@ def main():
             saved = {}
             ok_apply = True
             for (f, old, new) in edits:
+                if f.startswith('re:'):
+                    import re as _re
+                    nsub = 0
+                    for root, _d, files in os.walk(os.path.join(repo, f[3:])):
+                        for fn_ in files:
+                            if fn_.endswith('.rs'):
+                                p = os.path.join(root, fn_)
+                                src = open(p).read()
+                                new_src, k = _re.subn(old, new, src)
+                                if k:
+                                    saved.setdefault(p, src)
+                                    open(p, 'w').write(new_src)
+                                    nsub += k
+                    if not nsub:
+                        print('!! %s: regex %s matched nothing' % (m['id'], old))
+                        ok_apply = False
+                        break
+                    continue
                 p = os.path.join(repo, f)
                 src = open(p).read()
                 saved.setdefault(p, src)
